@@ -99,6 +99,7 @@ impl Prop for C09 {
         k.input = rng.chance(1, 2);
         k.stop = rng.chance(1, 3);
         k.max_lines = 3 + rng.usize(16);
+        k.multi_stmt = k.multi_stmt || rng.chance(1, 2);
         let uses_functions = k.funcs;
         let mut grng = rng.fork();
         let (lines, info) = Gen::new(&mut grng, k).program();
@@ -144,6 +145,32 @@ impl Prop for C09 {
 
     fn execute(c: &Case, ctx: &mut Ctx) -> Option<Violation> {
         let v = |class: &str, fp: String, detail: String| Some(Violation::new(&format!("C09/{class}"), fp, detail));
+        // (f) turn-count refinement: one evaluating call executes at most one statement, so the host
+        // needs at least as many evaluating calls as the reference model executes statements
+        // (an IF with the statement it selects is one statement in the model too)
+        {
+            let mut pc = c.prog.clone();
+            pc.breaks = vec![];
+            pc.tracing = false;
+            pc.warnings = false;
+            let cmp = crate::lockstep::Compare { prop: "C09", trace: false, warnings: false, reenter_probe: false };
+            match crate::lockstep::run_lockstep(&pc, cmp, ctx) {
+                Ok(o) => {
+                    if !o.capped {
+                        let stmts = o.model.steps.saturating_sub(o.model.skiprest_steps);
+                        ctx.count("reach.turn_count_compared");
+                        if o.eval_calls < stmts {
+                            return v(
+                                "more-than-one-statement",
+                                "fewer evaluating calls than statements".into(),
+                                format!("the program ran to its end in {} evaluating host calls, but it executes {} statements (reference model)", o.eval_calls, stmts),
+                            );
+                        }
+                    }
+                }
+                Err(x) => return Some(x),
+            }
+        }
         let mut s = Sess::new();
         s.apply(&Op::Flags(true, c.prog.warnings));
         // the generated program has an END line that would hide the raw tail: drop top-level END
